@@ -1,0 +1,23 @@
+//go:build verif
+
+package smtp
+
+import (
+	"context"
+	"net"
+
+	"github.com/foxcpp/maddy/framework/dns"
+	"github.com/foxcpp/maddy/framework/future"
+	"github.com/foxcpp/maddy/framework/log"
+)
+
+// VerifFetchRDNS runs the session's reverse DNS lookup (fetchRDNSName) for a
+// client address against r and returns the populated ConnState.RDNSName
+// (add-only export for /verif, extension X14).
+func VerifFetchRDNS(ctx context.Context, r dns.Resolver, remote net.Addr) *future.Future {
+	s := &Session{endp: &Endpoint{resolver: r}, log: log.Logger{Out: log.NopOutput{}}}
+	s.connState.RemoteAddr = remote
+	s.connState.RDNSName = future.New()
+	s.fetchRDNSName(ctx)
+	return s.connState.RDNSName
+}
